@@ -33,6 +33,7 @@ type pendingOp struct {
 	key      string
 	grant    chan outcome
 	returned chan struct{}
+	deadline bool // the injected error wraps context.DeadlineExceeded
 }
 
 type actor struct {
@@ -48,6 +49,7 @@ type actor struct {
 	handled  bool
 	sub      *seqSub
 	onDone   func(r any)
+	blocked  bool // parked on a mutex of the code under test (not at a yield point)
 }
 
 type actorKey struct{}
@@ -122,10 +124,34 @@ func (s *scheduler) launchGen(kind string, inst, gen int, fn func(ctx context.Co
 	return a
 }
 
+// launchGenCtx is launchGen with a hook that derives the actor's context (e.g. to make it cancellable).
+func (s *scheduler) launchGenCtx(kind string, inst, gen int, derive func(ctx context.Context) (context.Context, func()), fn func(ctx context.Context) any) *actor {
+	s.mu.Lock()
+	a := &actor{id: len(s.actors), inst: inst, kind: kind, gen: gen}
+	s.actors = append(s.actors, a)
+	s.current = a
+	s.mu.Unlock()
+	ctx, _ := derive(context.WithValue(context.Background(), actorKey{}, a))
+	go func() {
+		r := fn(ctx)
+		s.mu.Lock()
+		a.result = r
+		a.finished = true
+		s.cond.Broadcast()
+		s.mu.Unlock()
+	}()
+	s.settle(a)
+	return a
+}
+
 // settle waits until the actor is quiescent: finished, or parked with at
 // least one pending operation (all `expect` of them for a parallel batch).
 func (s *scheduler) settle(a *actor) {
 	deadline := time.Now().Add(120 * time.Second)
+	if a.kind == "submit" {
+		// a submission can block on the issuers mutex held by another, parked, submission
+		deadline = time.Now().Add(40 * time.Millisecond)
+	}
 	s.mu.Lock()
 	defer s.mu.Unlock()
 	waitUntil := func(cond func() bool, d time.Time) bool {
@@ -143,6 +169,10 @@ func (s *scheduler) settle(a *actor) {
 	t00 := time.Now()
 	defer func() { SchedDebugDur["settle"] += time.Since(t00) }()
 	if !waitUntil(func() bool { return a.finished || len(a.pending) > 0 }, deadline) {
+		if a.kind == "submit" {
+			a.blocked = true
+			return
+		}
 		s.hung = append(s.hung, fmt.Sprintf("actor %d (%s inst %d) neither yielded nor finished within 120s", a.id, a.kind, a.inst))
 		return
 	}
@@ -192,6 +222,19 @@ func (s *scheduler) grant(a *actor, k int, out outcome) {
 		return // rest of a parallel batch is still parked
 	}
 	s.settle(a)
+	// actors that were blocked on a mutex may have been released by this step
+	s.mu.Lock()
+	var bl []*actor
+	for _, b := range s.actors {
+		if b.blocked && !b.finished && !b.dead && len(b.pending) == 0 {
+			bl = append(bl, b)
+		}
+	}
+	s.mu.Unlock()
+	for _, b := range bl {
+		b.blocked = false
+		s.settle(b)
+	}
 }
 
 // kill abandons every goroutine of the actor (process death).
